@@ -1,5 +1,6 @@
 import OdakProofs.RealInst
 import OdakProofs.Lemmas.Codec
+import OdakProofs.Lemmas.GenImageCodecTorch
 import OdakModel.Codec
 import Mathlib.Algebra.Order.Floor.Ring
 import Mathlib.Tactic.Linarith
@@ -205,3 +206,221 @@ end Odak
 #print axioms Odak.C19_copy_file
 #print axioms Odak.C19_copy_same_path_fails
 #print axioms Odak.C19_copy_missing_source_fails
+
+/-! ## The regenerated image codec (`Generated/ImageCodec.lean`, regenerated from `/repo` on every run by
+  `harness/translate/imagecodec.py`): the whole value pipeline of `save_image` / `load_image`, NumPy and torch, statement by statement.
+  `cv2.imwrite` / `cv2.imread(…, IMREAD_UNCHANGED)` stay an uninterpreted lossless codec on unsigned-integer arrays
+  (`Tensor.pngRoundTrip`: the same array, a single channel `[m x n x 1]` comes back as `[m x n]`). -/
+namespace Odak
+open Odak.Gen Odak.CodecL Tensor
+set_option linter.unusedVariables false
+
+/-- tie of the value pipeline: the level the regenerated saver stores (two masked assignments one after the other, `/ cmax`,
+    `* (2^d - 1)`, truncation) is the hand-written `saveLevel` whenever `cmin ≤ cmax` -/
+theorem C19_gen_level_is_saveLevel (cmin cmax : ℝ) (d : Nat) (v : ℝ) (h : cmin ≤ cmax) :
+    genLevel cmin cmax d v = saveLevel cmin cmax d v := genLevel_eq_saveLevel cmin cmax d v h
+
+/-- tie of the NumPy saver: the array handed to `cv2.imwrite` has the input's shape and holds `saveLevel` of the input sample -
+    of the channel the regenerated swap table `saveImageSwaps` names for 3 and more channels, of the same position for 1 channel -/
+theorem C19_gen_np_save_tie (cmin cmax : ℝ) (d : Nat) (hd : d = 8 ∨ d = 16) (hc : cmin ≤ cmax) (H W C : Nat) (hC : 3 ≤ C)
+    (g r : Tensor ℝ) (hg : g.shape = [H, W]) (hr : r.shape = [H, W, C]) :
+    ((GenIC.np_save_image g cmin cmax d).shape = [H, W] ∧
+      ∀ i j, (GenIC.np_save_image g cmin cmax d).get [i, j] = saveLevel cmin cmax d (g.get [i, j])) ∧
+    ((GenIC.np_save_image r cmin cmax d).shape = [H, W, C] ∧
+      ∀ i j k, (GenIC.np_save_image r cmin cmax d).get [i, j, k] =
+        saveLevel cmin cmax d (r.get [i, j, swapSource saveImageSwaps k])) := by
+  obtain ⟨a1, a2⟩ := np_save_image_gray g H W d hg hd cmin cmax
+  obtain ⟨b1, b2⟩ := np_save_image_rgb r H W C d hr hC hd cmin cmax
+  refine ⟨⟨a1, fun i j => ?_⟩, ⟨b1, fun i j k => ?_⟩⟩
+  · rw [a2, genLevel_eq_saveLevel _ _ _ _ hc]
+  · rw [b2, genLevel_eq_saveLevel _ _ _ _ hc, chanSwap_eq_save]
+
+/-- `C19_image_save_law` for the regenerated pipeline: no value is cast to an unsigned integer outside its range (the flag of the
+    program is true) and every stored sample is an integer level in `0 .. 2^d − 1` - all clip ranges `0 ≤ cmin ≤ cmax`, `0 < cmax`,
+    both bit depths, 1, 3 and more channels -/
+theorem C19_gen_image_save_law (cmin cmax : ℝ) (d : Nat) (hd : d = 8 ∨ d = 16) (h : 0 < cmax) (hc : cmin ≤ cmax) (h0 : 0 ≤ cmin)
+    (H W C : Nat) (hC : 3 ≤ C) (g r : Tensor ℝ) (hg : g.shape = [H, W]) (hr : r.shape = [H, W, C]) :
+    (GenIC.np_save_image_ok g cmin cmax d = true ∧
+      ∀ i j, ∃ k : ℕ, (GenIC.np_save_image g cmin cmax d).get [i, j] = (k : ℝ) ∧ k ≤ 2 ^ d - 1) ∧
+    (GenIC.np_save_image_ok r cmin cmax d = true ∧
+      ∀ i j c, ∃ k : ℕ, (GenIC.np_save_image r cmin cmax d).get [i, j, c] = (k : ℝ) ∧ k ≤ 2 ^ d - 1) := by
+  obtain ⟨⟨_, a2⟩, ⟨_, b2⟩⟩ := C19_gen_np_save_tie cmin cmax d hd hc H W C hC g r hg hr
+  refine ⟨⟨np_save_image_ok_of_range g _ hg (by simp) d hd cmin cmax h0 hc h, fun i j => ?_⟩,
+    ⟨np_save_image_ok_of_range r _ hr (by simp) d hd cmin cmax h0 hc h, fun i j c => ?_⟩⟩
+  · rw [a2]; exact C19_image_save_law cmin cmax d _ h hc h0
+  · rw [b2]; exact C19_image_save_law cmin cmax d _ h hc h0
+
+/-- NumPy, one channel `[m x n]`: an image of integer levels `0 .. 2^d − 1` saved with `cmin = 0`, `cmax = 2^d − 1` and loaded back
+    is the same tensor (shape and every element); nothing is cast out of range on the way -/
+theorem C19_gen_np_roundtrip_gray (img : Tensor ℝ) (H W d : Nat) (hd : d = 8 ∨ d = 16) (hs : img.shape = [H, W])
+    (hl : ∀ i j, i < H → j < W → ∃ n : ℕ, n ≤ 2 ^ d - 1 ∧ img.get [i, j] = (n : ℝ)) :
+    GenIC.np_save_image_ok img 0 ((2 ^ d - 1 : ℕ) : ℝ) d = true ∧
+    (GenIC.np_load_image (pngRoundTrip (GenIC.np_save_image img 0 ((2 ^ d - 1 : ℕ) : ℝ) d)) 0 false).shape = img.shape ∧
+    ∀ i j, i < H → j < W →
+      (GenIC.np_load_image (pngRoundTrip (GenIC.np_save_image img 0 ((2 ^ d - 1 : ℕ) : ℝ) d)) 0 false).get [i, j] = img.get [i, j] := by
+  have hN : (0 : ℝ) < ((2 ^ d - 1 : ℕ) : ℝ) := by
+    have : 2 ^ 1 ≤ 2 ^ d := Nat.pow_le_pow_right (by norm_num) (depth_pos hd)
+    have : 1 ≤ 2 ^ d - 1 := by omega
+    exact_mod_cast this
+  obtain ⟨s1, s2⟩ := np_save_image_gray img H W d hs hd 0 ((2 ^ d - 1 : ℕ) : ℝ)
+  rw [pngRoundTrip_gray _ H W s1]
+  obtain ⟨l1, l2⟩ := np_load_image_gray _ H W s1 0 false
+  refine ⟨np_save_image_ok_of_range img _ hs (by simp) d hd 0 _ le_rfl hN.le hN, by rw [l1, hs], fun i j hi hj => ?_⟩
+  obtain ⟨n, hn, e⟩ := hl i j hi hj
+  rw [l2, loadNorm, if_pos rfl, s2, e, genLevel_eq_saveLevel _ _ _ _ hN.le]
+  exact C19_image_levels_roundtrip d (depth_pos hd) n hn
+
+/-- NumPy, three (or more) channels `[m x n x c]`: the loaded tensor equals the saved one - shape, CHANNEL ORDER, every element -/
+theorem C19_gen_np_roundtrip_rgb (img : Tensor ℝ) (H W C d : Nat) (hd : d = 8 ∨ d = 16) (hC : 3 ≤ C) (hs : img.shape = [H, W, C])
+    (hl : ∀ i j k, i < H → j < W → k < C → ∃ n : ℕ, n ≤ 2 ^ d - 1 ∧ img.get [i, j, k] = (n : ℝ)) :
+    GenIC.np_save_image_ok img 0 ((2 ^ d - 1 : ℕ) : ℝ) d = true ∧
+    (GenIC.np_load_image (pngRoundTrip (GenIC.np_save_image img 0 ((2 ^ d - 1 : ℕ) : ℝ) d)) 0 false).shape = img.shape ∧
+    ∀ i j k, i < H → j < W → k < C →
+      (GenIC.np_load_image (pngRoundTrip (GenIC.np_save_image img 0 ((2 ^ d - 1 : ℕ) : ℝ) d)) 0 false).get [i, j, k] =
+        img.get [i, j, k] := by
+  have hN : (0 : ℝ) < ((2 ^ d - 1 : ℕ) : ℝ) := by
+    have : 2 ^ 1 ≤ 2 ^ d := Nat.pow_le_pow_right (by norm_num) (depth_pos hd)
+    have : 1 ≤ 2 ^ d - 1 := by omega
+    exact_mod_cast this
+  obtain ⟨s1, s2⟩ := np_save_image_rgb img H W C d hs hC hd 0 ((2 ^ d - 1 : ℕ) : ℝ)
+  rw [pngRoundTrip_rgb _ H W C s1 hC]
+  obtain ⟨l1, l2⟩ := np_load_image_rgb _ H W C s1 0
+  refine ⟨np_save_image_ok_of_range img _ hs (by simp) d hd 0 _ le_rfl hN.le hN, by rw [l1, hs], fun i j k hi hj hk => ?_⟩
+  obtain ⟨n, hn, e⟩ := hl i j k hi hj hk
+  rw [l2, loadNorm, if_pos rfl, s2, chanSwap_invol, e, genLevel_eq_saveLevel _ _ _ _ hN.le]
+  exact C19_image_levels_roundtrip d (depth_pos hd) n hn
+
+/-- NumPy, one channel given as `[m x n x 1]`: the codec returns `[m x n]`; every sample is the saved one -/
+theorem C19_gen_np_roundtrip_single (img : Tensor ℝ) (H W d : Nat) (hd : d = 8 ∨ d = 16) (hs : img.shape = [H, W, 1])
+    (hl : ∀ i j, i < H → j < W → ∃ n : ℕ, n ≤ 2 ^ d - 1 ∧ img.get [i, j, 0] = (n : ℝ)) :
+    (GenIC.np_load_image (pngRoundTrip (GenIC.np_save_image img 0 ((2 ^ d - 1 : ℕ) : ℝ) d)) 0 false).shape = [H, W] ∧
+    ∀ i j, i < H → j < W →
+      (GenIC.np_load_image (pngRoundTrip (GenIC.np_save_image img 0 ((2 ^ d - 1 : ℕ) : ℝ) d)) 0 false).get [i, j] =
+        img.get [i, j, 0] := by
+  have hN : (0 : ℝ) < ((2 ^ d - 1 : ℕ) : ℝ) := by
+    have : 2 ^ 1 ≤ 2 ^ d := Nat.pow_le_pow_right (by norm_num) (depth_pos hd)
+    have : 1 ≤ 2 ^ d - 1 := by omega
+    exact_mod_cast this
+  obtain ⟨s1, s2⟩ := np_save_image_single img H W d hs hd 0 ((2 ^ d - 1 : ℕ) : ℝ)
+  obtain ⟨p1, p2⟩ := pngRoundTrip_single _ H W s1
+  obtain ⟨l1, l2⟩ := np_load_image_gray _ H W p1 0 false
+  refine ⟨l1, fun i j hi hj => ?_⟩
+  obtain ⟨n, hn, e⟩ := hl i j hi hj
+  rw [l2, loadNorm, if_pos rfl, p2, s2, e, genLevel_eq_saveLevel _ _ _ _ hN.le]
+  exact C19_image_levels_roundtrip d (depth_pos hd) n hn
+
+/-- the torch saver is the NumPy saver on the moved array: for a channels-first image `[c x m x n]` (the channel count its smallest
+    side, which is how the source recognises channels-first) the array handed to `cv2.imwrite` and the cast flag are those of the
+    NumPy saver applied to `moved`, `moved[i, j, k] = img[k, i, j]`; in the flat buffers this is the hand-written index pair
+    `hwcIndex` / `chwIndex` -/
+theorem C19_gen_torch_saver_is_np_saver_on_moved (img : Tensor ℝ) (C H W : Nat) (hs : img.shape = [C, H, W]) (hH : C ≤ H) (hW : C ≤ W)
+    (cmin cmax : ℝ) (d : Nat) :
+    ∃ moved : Tensor ℝ, moved.shape = [H, W, C] ∧ (∀ i j k, k < C → moved.get [i, j, k] = img.get [k, i, j]) ∧
+      (∀ i j k, ravel moved.shape [i, j, k] = hwcIndex C H W i j k ∧ ravel img.shape [k, i, j] = chwIndex C H W k i j) ∧
+      GenIC.torch_save_image img cmin cmax d = GenIC.np_save_image moved cmin cmax d ∧
+      GenIC.torch_save_image_ok img cmin cmax d = GenIC.np_save_image_ok moved cmin cmax d := by
+  obtain ⟨moved, m1, m2, m3, m4⟩ := torch_save_image_chw img C H W hs hH hW cmin cmax d
+  refine ⟨moved, m1, m2, fun i j k => ?_, m3, m4⟩
+  rw [m1, hs]
+  constructor <;> simp [ravel, prod, hwcIndex, chwIndex] <;> ring
+
+/-- a rank-2 image or a channels-last image goes to the NumPy saver unchanged; a rank-4 `[1 x c x m x n]` tensor is squeezed first -/
+theorem C19_gen_torch_saver_other_layouts (img : Tensor ℝ) (cmin cmax : ℝ) (d H W C : Nat) :
+    (img.shape = [H, W] → GenIC.torch_save_image img cmin cmax d = GenIC.np_save_image img cmin cmax d) ∧
+    (img.shape = [H, W, C] → argminList [H, W, C] ≠ 0 →
+      GenIC.torch_save_image img cmin cmax d = GenIC.np_save_image img cmin cmax d) ∧
+    (img.shape = [1, C, H, W] →
+      GenIC.torch_save_image img cmin cmax d = GenIC.torch_save_image (Tensor.squeeze img 0) cmin cmax d ∧
+      (Tensor.squeeze img 0).shape = [C, H, W] ∧ ∀ k i j, (Tensor.squeeze img 0).get [k, i, j] = img.get [0, k, i, j]) := by
+  refine ⟨fun h => (torch_save_image_plain img _ h (Or.inl rfl) cmin cmax d).1,
+    fun h h' => (torch_save_image_plain img _ h (Or.inr ⟨rfl, h'⟩) cmin cmax d).1, fun h => ?_⟩
+  obtain ⟨a, b, c, _⟩ := torch_save_image_b1 img C H W h cmin cmax d
+  exact ⟨c, a, b⟩
+
+/-- torch, three (or more) channels `[c x m x n]`, `c ≤ m`, `c ≤ n`: saved by the torch saver and loaded with `torch_style = True`
+    the tensor of integer levels comes back unchanged - shape, channel order, every element -/
+theorem C19_gen_torch_roundtrip_rgb (img : Tensor ℝ) (C H W d : Nat) (hd : d = 8 ∨ d = 16) (hC : 3 ≤ C) (hH : C ≤ H) (hW : C ≤ W)
+    (hs : img.shape = [C, H, W])
+    (hl : ∀ k i j, k < C → i < H → j < W → ∃ n : ℕ, n ≤ 2 ^ d - 1 ∧ img.get [k, i, j] = (n : ℝ)) :
+    GenIC.torch_save_image_ok img 0 ((2 ^ d - 1 : ℕ) : ℝ) d = true ∧
+    (GenIC.torch_load_image (pngRoundTrip (GenIC.torch_save_image img 0 ((2 ^ d - 1 : ℕ) : ℝ) d)) 0 true).shape = img.shape ∧
+    ∀ k i j, k < C → i < H → j < W →
+      (GenIC.torch_load_image (pngRoundTrip (GenIC.torch_save_image img 0 ((2 ^ d - 1 : ℕ) : ℝ) d)) 0 true).get [k, i, j] =
+        img.get [k, i, j] := by
+  have hN : (0 : ℝ) < ((2 ^ d - 1 : ℕ) : ℝ) := by
+    have : 2 ^ 1 ≤ 2 ^ d := Nat.pow_le_pow_right (by norm_num) (depth_pos hd)
+    have : 1 ≤ 2 ^ d - 1 := by omega
+    exact_mod_cast this
+  obtain ⟨moved, m1, m2, m3, m4⟩ := torch_save_image_chw img C H W hs hH hW 0 ((2 ^ d - 1 : ℕ) : ℝ) d
+  obtain ⟨s1, s2⟩ := np_save_image_rgb moved H W C d m1 hC hd 0 ((2 ^ d - 1 : ℕ) : ℝ)
+  rw [m3, m4, torch_load_image_eq, pngRoundTrip_rgb _ H W C s1 hC]
+  obtain ⟨l1, l2⟩ := np_load_image_rgb_torch_style _ H W C s1 0
+  refine ⟨np_save_image_ok_of_range moved _ m1 (by simp) d hd 0 _ le_rfl hN.le hN, by rw [l1, hs], fun k i j hk hi hj => ?_⟩
+  obtain ⟨n, hn, e⟩ := hl k i j hk hi hj
+  rw [l2, loadNorm, if_pos rfl, s2, chanSwap_invol, m2 i j k hk, e, genLevel_eq_saveLevel _ _ _ _ hN.le]
+  exact C19_image_levels_roundtrip d (depth_pos hd) n hn
+
+/-- torch, one channel `[1 x m x n]`: the loader returns `[m x n]` (the codec drops the single channel axis and `torch_style` only moves
+    an axis of a rank-3 array); every sample is the saved one -/
+theorem C19_gen_torch_roundtrip_single (img : Tensor ℝ) (H W d : Nat) (hd : d = 8 ∨ d = 16) (hH : 1 ≤ H) (hW : 1 ≤ W)
+    (hs : img.shape = [1, H, W])
+    (hl : ∀ i j, i < H → j < W → ∃ n : ℕ, n ≤ 2 ^ d - 1 ∧ img.get [0, i, j] = (n : ℝ)) (ts : Bool) :
+    (GenIC.torch_load_image (pngRoundTrip (GenIC.torch_save_image img 0 ((2 ^ d - 1 : ℕ) : ℝ) d)) 0 ts).shape = [H, W] ∧
+    ∀ i j, i < H → j < W →
+      (GenIC.torch_load_image (pngRoundTrip (GenIC.torch_save_image img 0 ((2 ^ d - 1 : ℕ) : ℝ) d)) 0 ts).get [i, j] =
+        img.get [0, i, j] := by
+  have hN : (0 : ℝ) < ((2 ^ d - 1 : ℕ) : ℝ) := by
+    have : 2 ^ 1 ≤ 2 ^ d := Nat.pow_le_pow_right (by norm_num) (depth_pos hd)
+    have : 1 ≤ 2 ^ d - 1 := by omega
+    exact_mod_cast this
+  obtain ⟨moved, m1, m2, m3, _⟩ := torch_save_image_chw img 1 H W hs hH hW 0 ((2 ^ d - 1 : ℕ) : ℝ) d
+  obtain ⟨s1, s2⟩ := np_save_image_single moved H W d m1 hd 0 ((2 ^ d - 1 : ℕ) : ℝ)
+  obtain ⟨p1, p2⟩ := pngRoundTrip_single _ H W s1
+  rw [m3, torch_load_image_eq]
+  obtain ⟨l1, l2⟩ := np_load_image_gray _ H W p1 0 ts
+  refine ⟨l1, fun i j hi hj => ?_⟩
+  obtain ⟨n, hn, e⟩ := hl i j hi hj
+  rw [l2, loadNorm, if_pos rfl, p2, s2, m2 i j 0 (by omega), e, genLevel_eq_saveLevel _ _ _ _ hN.le]
+  exact C19_image_levels_roundtrip d (depth_pos hd) n hn
+
+/-- `load_image`: `normalizeby ≠ 0` divides every stored level, AFTER the channel swap named by `loadImageSwaps` and with a true
+    division; `torch_style` moves the channel axis of a rank-3 array to the front and leaves a rank-2 array alone -/
+theorem C19_gen_load_image (st g : Tensor ℝ) (H W C : Nat) (hs : st.shape = [H, W, C]) (hg : g.shape = [H, W]) (n : ℝ) (hn : n ≠ 0)
+    (ts : Bool) :
+    ((GenIC.np_load_image st n false).shape = [H, W, C] ∧
+      ∀ i j k, (GenIC.np_load_image st n false).get [i, j, k] = st.get [i, j, swapSource loadImageSwaps k] / n) ∧
+    ((GenIC.np_load_image st n true).shape = [C, H, W] ∧
+      ∀ k i j, (GenIC.np_load_image st n true).get [k, i, j] = st.get [i, j, swapSource loadImageSwaps k] / n) ∧
+    ((GenIC.np_load_image g n ts).shape = [H, W] ∧ ∀ i j, (GenIC.np_load_image g n ts).get [i, j] = g.get [i, j] / n) ∧
+    GenIC.torch_load_image st n ts = GenIC.np_load_image st n ts := by
+  have e : ∀ x : ℝ, loadNorm n x = x / n := fun x => by simp [loadNorm, hn]
+  obtain ⟨a1, a2⟩ := np_load_image_rgb st H W C hs n
+  obtain ⟨b1, b2⟩ := np_load_image_rgb_torch_style st H W C hs n
+  obtain ⟨c1, c2⟩ := np_load_image_gray g H W hg n ts
+  exact ⟨⟨a1, fun i j k => by rw [a2, e, chanSwap_eq_load]⟩, ⟨b1, fun k i j => by rw [b2, e, chanSwap_eq_load]⟩,
+    ⟨c1, fun i j => by rw [c2, e]⟩, rfl⟩
+
+/-- where the regenerated saver and the hand-written `saveLevel` DIFFER: for a bit depth other than 8 and 16 the source does not cast at
+    all (the array handed to the codec holds the scaled, untruncated values; `saveLevel` truncates for every depth), and for
+    `cmin > cmax` the two masked assignments of the source end at `cmax` where `saveLevel` clips to `cmin` -/
+theorem C19_gen_saver_differs_from_hand_model (img : Tensor ℝ) (H W d : Nat) (hs : img.shape = [H, W]) (h8 : d ≠ 8) (h16 : d ≠ 16)
+    (cmin cmax : ℝ) :
+    ((GenIC.np_save_image img cmin cmax d).shape = [H, W] ∧
+      ∀ i j, (GenIC.np_save_image img cmin cmax d).get [i, j] = clipSeq cmin cmax (img.get [i, j]) / cmax * ((2 : ℝ) ^ d - 1)) ∧
+    (clipSeq 2 1 0 = 1 ∧ clip 2 1 0 = 2) :=
+  ⟨np_save_image_other_depth img H W d hs h8 h16 cmin cmax, clipSeq_ne_clip_example⟩
+
+/-- how the codec is called: `cv2.imread` with `IMREAD_UNCHANGED` (bit depth and channel count of the file are kept), both on
+    `expanduser(fn)`; defaults of the bit depth and of `torch_style` -/
+theorem C19_gen_codec_wiring :
+    GenIC.np_load_image_wiring = [("imread path", "expanduser(fn)"), ("imread flags", "cv2.IMREAD_UNCHANGED")] ∧
+    GenIC.np_save_image_wiring = [("imwrite path", "expanduser(fn)")] ∧
+    GenIC.np_save_image_color_depth_default = 8 ∧ GenIC.torch_save_image_color_depth_default = 8 ∧
+    GenIC.np_load_image_torch_style_default = false ∧ GenIC.torch_load_image_torch_style_default = false := by decide
+
+/-- non-vacuity: a 2 x 2 image of the levels 0, 1, 254, 255 satisfies the hypotheses of the 8-bit round trip -/
+example : ∃ img : Tensor ℝ, img.shape = [2, 2] ∧ ∀ i j, i < 2 → j < 2 → ∃ n : ℕ, n ≤ 2 ^ 8 - 1 ∧ img.get [i, j] = (n : ℝ) :=
+  ⟨⟨[2, 2], fun idx => ((if idx = [0, 0] then 0 else if idx = [0, 1] then 1 else if idx = [1, 0] then 254 else 255 : ℕ) : ℝ)⟩, rfl,
+    fun i j _ _ => ⟨_, by split_ifs <;> norm_num, rfl⟩⟩
+
+end Odak
